@@ -146,7 +146,16 @@ def run(ctx, repo):
             if i != parse_idx and any(isinstance(n, ast.Call) and call_name(n) == 'relativedelta' for n in ast.walk(st)):
                 first_use = i
                 break
-        if parse_idx is not None and first_use is not None and parse_idx < first_use:
+        extra = None
+        if parse_idx is not None:
+            for c in ast.walk(fn.body[parse_idx]):
+                if isinstance(c, ast.Call) and 'parse' in (call_name(c) or '') and (len(c.args) != 1 or c.keywords):
+                    extra = unparse(c)
+        if extra:
+            ctx.finding('R4', '%s::%s::birth date parser options' % (UKA, fname), UKA, fn.body[parse_idx].lineno,
+                        '%s parses a string birth date with options (%s): an ISO date string is then read differently from the date '
+                        'it denotes (dayfirst swaps day and month whenever the day is 12 or less)' % (fname, extra), "'2002-09-01'")
+        elif parse_idx is not None and first_use is not None and parse_idx < first_use:
             ctx.ok('R4', '%s parses string birth dates before use' % fname)
         else:
             ctx.finding('R4', '%s::%s::string birth date parsed before use' % (UKA, fname), UKA, fn.lineno,
